@@ -41,7 +41,7 @@ func deepCalls(fn *ssa.Function, depth int, seen map[*ssa.Function]bool) []ssa.C
 func C19(p *ir.Program, r *report.R) {
 	c := C{p, r}
 	r.Floor = 120
-	r.Explain = "Decided (Engler-style sibling cross-check over the matrix backend x method; equivalence with an ordered map over histories is NOT decided): every backend / batch / iterator type implements the full DB / Batch / Iterator interface; key and value arguments are normalised with nonNilBytes before they reach the backend primitive, in every backend and method, directly or through the sibling the method delegates to (exemptions with reasons); twin methods inside a backend (Get~Load, Has~Exist, Set~Put~SetSync, Delete~Del~DeleteSync) reach the same primitive; batch atomicity shape: memBatch.write holds the database mutex around the whole loop and applies the operations in slice order; an on-disk batch must hand the whole batch to ONE atomic primitive — the sharded backends issue one write per shard from concurrent goroutines (known findings, relevant when db_counts > 1) and Commit assigns its error result from several goroutines; prefixDB routes every key through prefixed(key) and every batch key through the prefix; the shard of a key is a pure function of the key. NOT decided: iterator order/bounds behaviour, reopen, atomicity on disk."
+	r.Explain = "Decided (Engler-style sibling cross-check over the matrix backend x method; equivalence with an ordered map over histories is ADDED after seeded-change testing: On-disk batch Write/Commit/WriteSync reach the shard flush loop (or the sibling they delegate to) on every path; iterator positioning tables for goleveldb and bolt (constructor and Seek): forward/nil First, forward/start Seek, reverse/nil Last, reverse/start Seek then Prev when past start and Last when off the end; PrefixToEnd truncates after the incremented byte. NOT decided): every backend / batch / iterator type implements the full DB / Batch / Iterator interface; key and value arguments are normalised with nonNilBytes before they reach the backend primitive, in every backend and method, directly or through the sibling the method delegates to (exemptions with reasons); twin methods inside a backend (Get~Load, Has~Exist, Set~Put~SetSync, Delete~Del~DeleteSync) reach the same primitive; batch atomicity shape: memBatch.write holds the database mutex around the whole loop and applies the operations in slice order; an on-disk batch must hand the whole batch to ONE atomic primitive — the sharded backends issue one write per shard from concurrent goroutines (known findings, relevant when db_counts > 1) and Commit assigns its error result from several goroutines; prefixDB routes every key through prefixed(key) and every batch key through the prefix; the shard of a key is a pure function of the key. NOT decided: iterator order/bounds behaviour, reopen, atomicity on disk."
 	r.Trusted = []string{"goleveldb, boltdb, badger (third-party)", "murmur3"}
 
 	dbI := p.Obj("libs/db", "DB").Type().Underlying().(*types.Interface)
@@ -356,6 +356,149 @@ func C19(p *ir.Program, r *report.R) {
 		r.Check("K5", "db.(*prefixDB).prefixed/prefix++key", p.Pos(pf.Pos()), okP, "prefixed(key) = prefix ++ key")
 	}
 	_ = c
+
+	// ---- a batch write flushes on every path ---------------------------------------------------
+	// Write/Commit/WriteSync of an on-disk batch reach the shard loop (or the sibling they delegate
+	// to) on every path from entry to return: no early return may skip the flush (a batch of only
+	// deletes has "size" 0 in some backends and must still be written).
+	for _, typ := range []string{"goLevelDBBatch", "boltBatch", "badgerBatch"} {
+		for _, m := range []string{"Write", "Commit", "WriteSync"} {
+			fn := p.TryFunc("libs/db", typ+"."+m)
+			if fn == nil {
+				continue
+			}
+			// flush points: shard-loop headers that contain a go/call of the flushing closure or primitive, and sibling calls
+			flushBlocks := map[*ssa.BasicBlock]bool{}
+			isFlushCall := func(in ssa.Instruction) bool {
+				switch x := in.(type) {
+				case *ssa.Go:
+					return true
+				case *ssa.Call:
+					n := ir.CalleeName(x)
+					return ir.Match("db."+typ+".*", n) && (strings.HasSuffix(n, ".Write") || strings.HasSuffix(n, ".Commit") || strings.HasSuffix(n, ".WriteSync")) ||
+						ir.Match("leveldb.DB.Write", n) || ir.Match("bolt.DB.*", n) || ir.Match("badger.WriteBatch.Flush", n)
+				}
+				return false
+			}
+			for _, l := range ir.Loops(fn) {
+				has := false
+				for b := range l.Body {
+					for _, in := range b.Instrs {
+						if isFlushCall(in) {
+							has = true
+						}
+					}
+				}
+				if has {
+					flushBlocks[l.Header] = true
+				}
+			}
+			via := func(in ssa.Instruction) bool {
+				return flushBlocks[in.Block()] || isFlushCall(in)
+			}
+			c.MustPass("db.(*"+typ+")."+m, "flush-on-every-path", ir.Entry(fn), ir.IsReturn, via, nil, "every path from entry to return reaches the shard flush loop or the delegated sibling")
+		}
+	}
+
+	// ---- iterator positioning tables ---------------------------------------------------------------
+	// Where an iterator is placed for (direction, start): forward/nil -> First, forward/start -> Seek,
+	// reverse/nil -> Last, reverse/start -> Seek then Prev when the seek landed after start and Last
+	// when the seek ran off the end. A missing row makes a bounded reverse iteration empty or shifted.
+	{
+		type row struct {
+			label, call string
+			facts       []string
+		}
+		table := func(name string, fn *ssa.Function, rows []row) {
+			for _, rw := range rows {
+				found := false
+				ir.InstrsDeep(fn, func(f *ssa.Function, in ssa.Instruction) {
+					call, ok := in.(*ssa.Call)
+					if !ok || !ir.Match(rw.call, ir.CalleeName(call)) {
+						return
+					}
+					fs := ir.FactsAt(in)
+					all := true
+					for _, pat := range rw.facts {
+						if !ir.HasFact(fs, pat) {
+							all = false
+						}
+					}
+					if all {
+						found = true
+					}
+				})
+				r.Check("K6", "iterator-position/"+name+"/"+rw.label, p.Pos(fn.Pos()), found, fmt.Sprintf("a call %s exists under %v", rw.call, rw.facts))
+			}
+		}
+		lv := func(start string) []row {
+			return []row{
+				{"forward-nil:First", "iterator.Iterator.First", []string{"!*isReverse", "eq(" + start + ",nil)"}},
+				{"forward-start:Seek", "iterator.Iterator.Seek", []string{"!*isReverse", "!eq(" + start + ",nil)"}},
+				{"reverse-nil:Last", "iterator.Iterator.Last", []string{"*isReverse", "eq(" + start + ",nil)"}},
+				{"reverse-start:Seek", "iterator.Iterator.Seek", []string{"*isReverse", "!eq(" + start + ",nil)"}},
+				{"reverse-start-after:Prev", "iterator.Iterator.Prev", []string{"*isReverse", "*iterator.Iterator.Seek(*," + start + ")", "lt(bytes.Compare(" + start + ",*Key*),0)"}},
+				{"reverse-start-off-end:Last", "iterator.Iterator.Last", []string{"*isReverse", "!eq(" + start + ",nil)", "!*iterator.Iterator.Seek(*," + start + ")"}},
+			}
+		}
+		bl := func(start string) []row {
+			return []row{
+				{"forward-nil:First", "bolt.Cursor.First", []string{"!*isReverse", "eq(" + start + ",nil)"}},
+				{"forward-start:Seek", "bolt.Cursor.Seek", []string{"!*isReverse", "!eq(" + start + ",nil)"}},
+				{"reverse-nil:Last", "bolt.Cursor.Last", []string{"*isReverse", "eq(" + start + ",nil)"}},
+				{"reverse-start:Seek", "bolt.Cursor.Seek", []string{"*isReverse", "!eq(" + start + ",nil)"}},
+				{"reverse-start-after:Prev", "bolt.Cursor.Prev", []string{"*isReverse", "!eq(key,nil)", "lt(bytes.Compare(" + start + ",key),0)"}},
+				{"reverse-start-off-end:Last", "bolt.Cursor.Last", []string{"*isReverse", "!eq(" + start + ",nil)", "eq(key,nil)"}},
+			}
+		}
+		table("db.newGoLevelDBIterator", p.Func("libs/db", "newGoLevelDBIterator"), lv("start"))
+		table("db.newBoltIterator", p.Func("libs/db", "newBoltIterator"), bl("start"))
+		if f := p.TryFunc("libs/db", "boltIterator.Seek"); f != nil {
+			table("db.(*boltIterator).Seek", f, bl("skey"))
+		}
+		if f := p.TryFunc("libs/db", "goLevelDBIterator.Seek"); f != nil {
+			var rows []row
+			for _, rw := range lv("key") {
+				rows = append(rows, rw)
+			}
+			// report only rows that the function has at all (its shape is checked as a sibling of the constructor)
+			n := 0
+			ir.InstrsDeep(f, func(_ *ssa.Function, in ssa.Instruction) {
+				if call, ok := in.(*ssa.Call); ok && ir.Match("iterator.Iterator.Last", ir.CalleeName(call)) {
+					n++
+				}
+			})
+			if n > 0 {
+				table("db.(*goLevelDBIterator).Seek", f, rows)
+			}
+		}
+	}
+
+	// ---- PrefixToEnd: the exclusive end of a prefix range ----------------------------------------
+	// The limit is the prefix truncated after the last byte below 0xff, with that byte incremented.
+	{
+		fn := p.Func("libs/db", "PrefixToEnd")
+		okLen, okCopy, okInc := false, false, false
+		ir.Instrs(fn, func(in ssa.Instruction) {
+			switch x := in.(type) {
+			case *ssa.MakeSlice:
+				if ir.Render(x.Len) == "(φ:i + 1)" && ir.HasFact(ir.FactsAt(in), "lt(prefix[φ:i],255)") {
+					okLen = true
+				}
+			case *ssa.Call:
+				if bi, ok := x.Call.Value.(*ssa.Builtin); ok && bi.Name() == "copy" && strings.HasPrefix(ir.Render(x.Call.Args[0]), "make([]byte,(φ:i + 1))") && ir.Render(x.Call.Args[1]) == "prefix" {
+					okCopy = true
+				}
+			case *ssa.Store:
+				if strings.HasPrefix(ir.Render(x.Addr), "&make([]byte,(φ:i + 1))[φ:i]") || strings.HasPrefix(ir.Render(x.Addr), "make([]byte,(φ:i + 1))[φ:i]") {
+					okInc = ir.Render(x.Val) == "(prefix[φ:i] + 1)"
+				}
+			}
+		})
+		r.Check("K11", "db.PrefixToEnd/truncated-incremented", p.Pos(fn.Pos()), okLen && okCopy && okInc,
+			fmt.Sprintf("limit = prefix[:i+1] with byte i incremented, for the last i with prefix[i] < 0xff (len %v, copy %v, increment %v)", okLen, okCopy, okInc))
+	}
+
 }
 
 var _ = report.Discharged
